@@ -519,6 +519,18 @@ Definition expected_view (img : list Z) (d : dyninfo) : list dyntag :=
   let m := e_machine (di_eh d) in let o := e_osabi (di_eh d) in
   map (expected_tag (spec_dtab m o) (spec_is_solaris m o) (strtab_bytes d img)) (di_entries d).
 
+Lemma elf_open_ptab img f : elf_open img = Ok f ->
+  table_of_id (assoc_s gen_p_type_table_of_machine (machine_key (e_machine (f_eh f)))) = Ok (f_ptab f).
+Proof.
+  unfold elf_open. destruct img as [|m0 [|m1 [|m2 [|m3 [|c [|d0 img']]]]]]; try discriminate.
+  destruct (negb _); [discriminate|]. destruct (negb _); [discriminate|]. destruct (negb _); [discriminate|].
+  destruct (parse_at _ _ 0) as [r|]; [|discriminate]. cbn [bind].
+  destruct (table_of_id (assoc_s gen_p_type_table_of_machine _)) as [pt|] eqn:Ept; [|discriminate]. cbn [bind].
+  destruct (table_of_id (assoc_s gen_sh_type_table_of_machine _)) as [st|]; [|discriminate]. cbn [bind].
+  destruct (table_of_id (dtab_id _ _)) as [dt|]; [|discriminate]. cbn [bind].
+  intros H. inversion H; subst f. cbn [f_eh f_ptab]. exact Ept.
+Qed.
+
 (* everything consistent_b and stripped_of_b say, in the model's terms *)
 Record vctx (img img' : list Z) (d : dyninfo) (f f' : elf) (sp : Z) : Prop := {
   c_open : elf_open img = Ok f;  c_open' : elf_open img' = Ok f';
@@ -550,7 +562,16 @@ Record vctx (img img' : list Z) (d : dyninfo) (f f' : elf) (sp : Z) : Prop := {
   c_strlen : 0 <= sh_size (di_str d);
   c_strend : sh_offset (di_str d) + sh_size (di_str d) <= zlen img;
   c_strings : strings_ok (spec_is_solaris (e_machine (f_eh f)) (e_osabi (f_eh f))) (strtab_bytes d img) (di_entries d) = true;
-  c_eh : f_eh f = di_eh d;  c_64 : f_is64 f = di_is64 d;  c_le : f_le f = di_le d
+  c_eh : f_eh f = di_eh d;  c_64 : f_is64 f = di_is64 d;  c_le : f_le f = di_le d;
+  c_ptab' : f_ptab f' = f_ptab f;
+  c_ptrs : forallb (fun tag => match first_val tag (di_entries d) with
+                               | Some ptr => match ptr_ok (f_is64 f) img (di_phdrs d) ptr 1 with Some _ => true | None => false end
+                               | None => true
+                               end) [DT_SYMTAB; DT_HASH; DT_GNU_HASH] = true;
+  c_rel : reloc_ok (f_is64 f) img (di_phdrs d) (di_entries d) DT_REL DT_RELSZ DT_RELENT [if f_is64 f then 16 else 8] = true;
+  c_rela : reloc_ok (f_is64 f) img (di_phdrs d) (di_entries d) DT_RELA DT_RELASZ DT_RELAENT [if f_is64 f then 24 else 12] = true;
+  c_relr : reloc_ok (f_is64 f) img (di_phdrs d) (di_entries d) DT_RELR DT_RELRSZ DT_RELRENT [if f_is64 f then 8 else 4] = true;
+  c_jmprel : reloc_ok (f_is64 f) img (di_phdrs d) (di_entries d) DT_JMPREL DT_PLTRELSZ DT_PLTREL [DT_REL; DT_RELA] = true
 }.
 
 Lemma consistent_ctx img img' d :
@@ -559,7 +580,7 @@ Lemma consistent_ctx img img' d :
 Proof.
   intros Hd Hc Hst. unfold consistent_b in Hc. rewrite Hd in Hc.
   rewrite !andb_true_iff in Hc.
-  destruct Hc as [[[[[[[[[[[[[K1 K2] K3] K4] K5] K6] K7] K8] K9] _] _] _] _] _].
+  destruct Hc as [[[[[[[[[[[[[K1 K2] K3] K4] K5] K6] K7] K8] K9] K10] K11] K12] K13] K14].
   destruct (describe_inv _ _ Hd) as [Hso [D1 [D2 [D3 [D4 [D5 [D6 [prs [srs [Rp [Rs [Eps [Ess [Hseg [Hsec [Hstr Hes]]]]]]]]]]]]]]]].
   destruct (spec_open_elf_open _ _ _ _ Hso) as [f [Ho [Hi [Hle [His Heh]]]]].
   destruct (elf_open_inv _ _ Ho) as [_ [HT [Hpt Hsht]]].
@@ -579,12 +600,14 @@ Proof.
   rewrite <- Hle, <- His, <- Heh in *.
   exists f, f', sp. constructor; try assumption; try (rewrite Heh'; assumption);
     try (clear - K1 K2 K3 K7; lia).
-  - rewrite Ess. apply section_headers_read; try zl. rewrite Hi. exact Rs.
+  - rewrite Ess. apply section_headers_read; try (clear - D1 D2 D3 D4 D5 D6 K1 K2 K3 K7 Heh0 Hph0 E3 E4 E5 E6 Hoff1 Hoff2 Hlen0; lia). rewrite Hi. exact Rs.
   - apply section_headers_stripped. rewrite Heh'. exact E6.
-  - rewrite Eps. apply segment_headers_read; try zl. rewrite Hi. exact Rp.
-  - rewrite Eps. apply segment_headers_read; rewrite ?Heh', ?His', ?Hle', ?Hi', ?E3, ?E4, ?E5; try zl.
-    rewrite <- (read_recs_same_behind _ (ehdr_size (f_is64 f)) img img') by (assumption || zl). exact Rp.
-  - apply (section_header_nth f srs); try zl; [rewrite Hi; exact Rs | rewrite <- Ess; exact Hstr].
+  - rewrite Eps. apply segment_headers_read; try (clear - D1 D2 D3 D4 D5 D6 K1 K2 K3 K7 Heh0 Hph0 E3 E4 E5 E6 Hoff1 Hoff2 Hlen0; lia). rewrite Hi. exact Rp.
+  - rewrite Eps. apply segment_headers_read; rewrite ?Heh', ?His', ?Hle', ?Hi', ?E3, ?E4, ?E5; try (clear - D1 D2 D3 D4 D5 D6 K1 K2 K3 K7 Heh0 Hph0 E3 E4 E5 E6 Hoff1 Hoff2 Hlen0; lia).
+    rewrite <- (read_recs_same_behind _ (ehdr_size (f_is64 f)) img img') by (assumption || (clear - D1 D2 D3 D4 D5 D6 K1 K2 K3 K7 Heh0 Hph0 E3 E4 E5 E6 Hoff1 Hoff2 Hlen0; lia)). exact Rp.
+  - apply (section_header_nth f srs); try (clear - D1 D2 D3 D4 D5 D6 K1 K2 K3 K7 Heh0 Hph0 E3 E4 E5 E6 Hoff1 Hoff2 Hlen0; lia); [rewrite Hi; exact Rs | rewrite <- Ess; exact Hstr].
+  - pose proof (elf_open_ptab _ _ Ho) as P1. pose proof (elf_open_ptab _ _ Ho') as P2.
+    rewrite Heh', E2 in P2. rewrite P1 in P2. inversion P2. reflexivity.
 Qed.
 
 Section with_ctx.
@@ -596,7 +619,7 @@ Let o := e_osabi (f_eh f).
 (* the string table seen from the original and from the stripped image *)
 Lemma ctx_split : exists pre2 tail2, img = pre2 ++ strtab_bytes d img ++ tail2 /\ zlen pre2 = sh_offset (di_str d).
 Proof.
-  destruct C. apply img_split; lia.
+  destruct C. apply img_split; clear - c_ehpos0 c_stroff0 c_strlen0 c_strend0; lia.
 Qed.
 Lemma ctx_split' : exists pre2 tail2, img' = pre2 ++ strtab_bytes d img ++ tail2 /\ zlen pre2 = sh_offset (di_str d).
 Proof.
@@ -633,16 +656,16 @@ Proof.
   rewrite Hexp. split; [|split].
   - unfold section_tags. rewrite c_open0. cbn [bind].
     apply (section_view f _ _ c_dtab0 c_sht0 (di_shdrs d) (di_sec d) (di_str d) (di_entries d) pre2 _ tail2);
-      try assumption; try lia; rewrite c_img0; assumption.
+      try assumption; try (clear - c_ehpos0 c_segoff0 c_secoff0 c_stroff0 c_strlen0 c_strend0 c_fs0 c_strty0 Hpre2 Hpre2'; lia); rewrite c_img0; assumption.
   - unfold segment_tags. rewrite c_open0. cbn [bind].
     apply (segment_view_full f _ _ c_dtab0 c_sht0 c_pt0 (di_shdrs d) (di_sec d) (di_str d) (di_phdrs d) (di_seg d)
                              (di_entries d) sp (sh_size (di_str d)) pre2 _ tail2);
-      try assumption; try lia; try (rewrite c_img0; assumption).
+      try assumption; try (clear - c_ehpos0 c_segoff0 c_secoff0 c_stroff0 c_strlen0 c_strend0 c_fs0 c_strty0 Hpre2 Hpre2'; lia); try (rewrite c_img0; assumption).
     rewrite Hpre2. assumption.
-  - unfold segment_tags. rewrite c_open'0. cbn [bind]. rewrite <- c_dtab0, <- c_dtab'0 at 1.
-    rewrite c_dtab0 in c_dtab'0.
+  - unfold segment_tags. rewrite c_open'0. cbn [bind].
+    assert (Hdt : f_dtab f = f_dtab f') by congruence. rewrite Hdt. rewrite Hdt in c_dtab0.
     apply (segment_view_stripped f' _ _ c_dtab0 c_pt'0 (di_phdrs d) (di_seg d) (di_entries d) sp (sh_size (di_str d))
-                                 pre2' _ tail2'); try assumption; try lia.
+                                 pre2' _ tail2'); try assumption; try (clear - c_ehpos0 c_segoff0 c_secoff0 c_stroff0 c_strlen0 c_strend0 c_fs0 c_strty0 Hpre2 Hpre2'; lia).
     + rewrite c_img'0. exact Hsplit'.
     + rewrite Hpre2'. assumption.
 Qed.
